@@ -15,6 +15,58 @@ NV = {"chain": 2, "diamond": 2, "dist": 4, "weak": 2, "dist2": 2}
 NC = {"chain": 4, "diamond": 4, "dist": 6, "weak": 4, "dist2": 4}
 
 
+def set_seed_obligations(chk):
+    """Engine B: Model.set_seed(key) is a value assignment to the model's seed inputs like any other -- afterwards (after update() when
+    auto-update is off) every seeded node and everything downstream holds the value computed from the NEW seeds"""
+    import jax
+    import jax.numpy as jnp
+    import numpy as np
+    import z3
+    import liesel.model as lsl
+    from ..harness import Enc, Obligation, cells
+    from ..jx2smt import root_key
+    obs = []
+    for auto in (True, False):
+        x = lsl.Var(0.5, name="x")
+        noise = lsl.Var(lsl.Calc(lambda x, seed: x + jax.random.normal(seed, ()), x, _needs_seed=True), name="noise")
+        jit = lsl.Var(lsl.Calc(lambda seed: 3.0 * jax.random.normal(seed, ()), _needs_seed=True), name="jitter")
+        y = lsl.Var(lsl.Calc(lambda n, j: 2.0 * n + j + 1.0, noise, jit), name="y")
+        model = lsl.GraphBuilder().add(y).build_model()
+        model.auto_update = auto
+        st0 = model.state
+
+        def f(xv, key, model=model, auto=auto):
+            model.vars["x"].value = xv
+            if not auto:
+                model.update()
+            model.set_seed(key)
+            if not auto:
+                model.update()
+            return dict(noise=model.vars["noise"].value, jitter=model.vars["jitter"].value, y=model.vars["y"].value,
+                        stale=jnp.asarray(float(sum(bool(n.outdated) for n in model.nodes.values()))))
+        xs = z3.Real(f"setseed_x_{int(auto)}")
+        key = jax.random.PRNGKey(5)
+        enc = chk.note_enc(Enc(f"Model.set_seed (auto-update {'on' if auto else 'off'})", f, (0.25, key), (np.array(xs, dtype=object).reshape(()), root_key("newseed")), key_roots={"newseed": key}))
+        model.state = st0
+
+        def goal(V, xs=xs):
+            o = V.out
+            zs = [d for d in V.I.draws if d["kind"] == "normal" and "newseed" in repr(d["keys"][0])]
+            keys = {repr(d["keys"][0]) for d in zs}
+            if len(zs) < 2 or len(keys) < 2:
+                return [], z3.BoolVal(False)
+            alts = []
+            for a in zs:
+                for b in zs:
+                    if a is not b and repr(a["keys"][0]) != repr(b["keys"][0]):
+                        za, zb = cells(a["out"])[0], cells(b["out"])[0]
+                        alts.append(z3.And(cells(o["noise"])[0] == xs + za, cells(o["jitter"])[0] == 3 * zb, cells(o["y"])[0] == 2 * (xs + za) + 3 * zb + 1))
+            return [], z3.And(z3.Or(*alts), cells(o["stale"])[0] == 0)
+        obs.append(Obligation(f"Model.set_seed(key), auto-update {'on' if auto else 'off (then update())'}: no node is outdated, every seeded node holds its function of a draw made with its own key derived "
+                              "from the new key, and everything downstream is recomputed from those values", [enc], goal, signature=f"set_seed:auto={int(auto)}"))
+    return obs
+
+
 def main():
     chk = Check("C01")
     graphs = ["diamond", "weak", "dist2"] if chk.tier == "quick" else ["chain", "diamond", "dist", "weak", "dist2"]
@@ -35,6 +87,12 @@ def main():
         for fn in ("check_update_all", "check_toggle_and_state") + (("check_restore",) if chk.tier != "quick" and NC[g] <= 4 else ()):
             conds.append(Cond("vf.ch.h_c01", fn, f"[graph {g}] {OPS[fn]}; the cache invariant is preserved", timeout_s=to, env={"GRAPH": g}, signature=f"{g}:{fn}"))
     run_conditions(chk, conds)
+    import os
+    if not os.environ.get("VERIF_ONLY") or os.environ.get("VERIF_ONLY", "").startswith("set_seed"):
+        obs = chk.guarded("set_seed:trace", "tracing Model.set_seed", set_seed_obligations, chk)
+        if obs:
+            chk.run(obs)
+    chk.functions += ["liesel.model.model.Model.set_seed (Engine B: jaxpr -> z3, sampler stubbed per key term)"]
     chk.functions += ["liesel.model.nodes.Value.value (setter)", "liesel.model.nodes.Node.flag_outdated / outdated / update / state", "liesel.model.nodes.TransientNode.outdated", "liesel.model.nodes.Calc.update / Dist.update",
                       "liesel.model.model.Model.update(*names) / _recursive_inputs / state (getter, setter) / auto_update", "liesel.model.nodes.Var.value (proxy nodes)"]
     chk.bounds += ["graphs of <= 10 nodes; node values unbounded symbolic integers, outdated flags and auto-update symbolic; ONE operation from an arbitrary invariant state (any finite history by induction)",
